@@ -14,11 +14,17 @@ package main
 // This file: the wiring.  c20_run.go: workloads, observation, oracles, emission.
 
 import (
+	"bytes"
 	"encoding/json"
 	"errors"
 	"fmt"
+	"net/http/httptest"
 	"sort"
 	"strings"
+	"time"
+
+	"github.com/gorilla/mux"
+	restdochandler "github.com/trustbloc/sidetree-core-go/pkg/restapi/dochandler"
 
 	"github.com/trustbloc/sidetree-core-go/pkg/api/operation"
 	"github.com/trustbloc/sidetree-core-go/pkg/api/protocol"
@@ -431,7 +437,8 @@ func (w *c20World) submit(rq *c20Req) (*document.ResolutionResult, error) {
 	rq.AcceptDelta = int64(cur.Protocol().MaxOperationTimeDelta)
 	rq.AcceptedAt = w.clk.now
 	w.cur = rq
-	res, err := w.dh.ProcessOperation(rq.Request, cur.Protocol().GenesisTime)
+	_ = cur
+	res, err := w.restUpdate(rq.Request) // through the REST update handler, as a client would
 	w.cur = nil
 	rq.Accepted = err == nil
 	return res, err
@@ -545,8 +552,45 @@ func (w *c20World) resolve(did string) c20View {
 				v = c20View{Err: "panic: " + fmt.Sprint(r)}
 			}
 		}()
-		res, err := w.dh.ResolveDocument(did)
+		res, err := w.restResolve(did) // through the REST resolve handler
 		v = w.viewOf(res, err)
 	}()
 	return v
+}
+
+// ---- REST layer (pkg/restapi/dochandler): requests and resolutions go through the HTTP handlers ----
+
+type c20HTTPMetrics struct{}
+
+func (c20HTTPMetrics) HTTPCreateUpdateTime(time.Duration) {}
+func (c20HTTPMetrics) HTTPResolveTime(time.Duration)      {}
+
+func restResult(rec *httptest.ResponseRecorder) (*document.ResolutionResult, error) {
+	body := strings.TrimSpace(rec.Body.String())
+	if rec.Code != 200 {
+		return nil, fmt.Errorf("%s", body)
+	}
+	if body == "" || body == "null" {
+		return nil, nil
+	}
+	var res document.ResolutionResult
+	if err := json.Unmarshal([]byte(body), &res); err != nil {
+		return nil, fmt.Errorf("REST response is not a resolution result: %v", err)
+	}
+	return &res, nil
+}
+
+func (w *c20World) restUpdate(body []byte) (*document.ResolutionResult, error) {
+	h := restdochandler.NewUpdateHandler(w.dh, w.client, c20HTTPMetrics{})
+	rec := httptest.NewRecorder()
+	h.Update(rec, httptest.NewRequest("POST", "/operations", bytes.NewReader(body)))
+	return restResult(rec)
+}
+
+func (w *c20World) restResolve(did string) (*document.ResolutionResult, error) {
+	h := restdochandler.NewResolveHandler(w.dh, c20HTTPMetrics{})
+	req := mux.SetURLVars(httptest.NewRequest("GET", "/identifiers/"+did, nil), map[string]string{"id": did})
+	rec := httptest.NewRecorder()
+	h.Resolve(rec, req)
+	return restResult(rec)
 }
